@@ -759,3 +759,10 @@ def run(ctx, rep):
     sibling_builders(F, rep)
     frontend_year_ranges(F, rep)
     filing_keys(F, rep)
+    # "every disposal is reported in its tax year": the summary builders never turn a year (or a disposal) they cannot build into
+    # an absence — no workspace `Result` is handed to ok/unwrap_or/… and none is flattened away by `flat_map`/`flatten` (Result is
+    # IntoIterator). An all-years report that skips the years missing from the exemption table drops their disposals, while the
+    # single-year report of the same year is an error: the year report is no longer the all-years slice (shared with C15-R7; seeded
+    # change C07-s9)
+    import rules.c15 as c15
+    c15.errors_not_dropped(F, rep, "R5", scope=lambda b: b.id.startswith("cgt_core::calculator"))
